@@ -57,13 +57,42 @@ Proof.
   match goal with |- match ?a with _ => _ end = match ?b with _ => _ end => destruct a; reflexivity end.
 Qed.
 
+(** ** Codec::read_message *)
+Lemma get_seq_u8_take (l : list Z) : forall (fuel : nat) (n : Z), (length l <= fuel)%nat ->
+  get_seq get_u8 fuel n l = take_exact n l.
+Proof.
+  unfold take_exact, lenZ. induction l as [|x l IH]; intros fuel n Hf.
+  - destruct fuel as [|f]; cbn [get_seq length Z.of_nat].
+    + destruct (Z.leb_spec n 0); destruct (Z.ltb_spec 0 n); try lia; [|reflexivity].
+      replace (Z.to_nat n) with 0%nat by lia. reflexivity.
+    + destruct (Z.leb_spec n 0); destruct (Z.ltb_spec 0 n); try lia; [|reflexivity].
+      replace (Z.to_nat n) with 0%nat by lia. reflexivity.
+  - destruct fuel as [|f]; [cbn in Hf; lia|]. cbn [get_seq].
+    destruct (Z.leb_spec n 0) as [Hn|Hn].
+    + destruct (Z.ltb_spec (Z.of_nat (length (x :: l))) n); [cbn [length] in *; lia|].
+      replace (Z.to_nat n) with 0%nat by lia. reflexivity.
+    + cbn [get_u8]. cbn [length] in Hf. rewrite (IH f (n - 1)) by lia. cbn [length].
+      destruct (Z.ltb_spec (Z.of_nat (length l)) (n - 1)); destruct (Z.ltb_spec (Z.of_nat (S (length l))) n); try lia; [reflexivity|].
+      replace (Z.to_nat n) with (S (Z.to_nat (n - 1))) by lia. reflexivity.
+Qed.
+
+Lemma tie_read_message (utf8 : list Z -> bool) (inp : list Z) :
+  g_read_message (decode_message utf8) inp = read_message utf8 inp.
+Proof.
+  unfold g_read_message, read_message. cbv zeta. rewrite tie_header_read_from.
+  destruct (read_from inp) as [[h rest]|e]; [|reflexivity].
+  rewrite tie_hvalidate. destruct (hvalidate h); [|reflexivity].
+  rewrite get_seq_u8_take by lia. destruct (take_exact (h_length h) rest) as [[payload rest']|]; reflexivity.
+Qed.
+
 Definition protocol_header_is_translation : Prop :=
   (forall t len, g_header_new t len = header_new t len) /\
   (forall checked h, g_header_encode checked h = header_encode_ck checked h) /\
   (forall buf, length buf = 12%nat -> g_header_decode buf = header_decode buf) /\
-  (forall inp, g_header_read_from inp = read_from inp).
+  (forall inp, g_header_read_from inp = read_from inp) /\
+  (forall utf8 inp, g_read_message (decode_message utf8) inp = read_message utf8 inp).
 Lemma protocol_header_is_translation_holds : protocol_header_is_translation.
-Proof. split; [exact tie_header_new|]. split; [exact tie_header_encode|]. split; [exact tie_header_decode|exact tie_header_read_from]. Qed.
+Proof. split; [exact tie_header_new|]. split; [exact tie_header_encode|]. split; [exact tie_header_decode|]. split; [exact tie_header_read_from|exact tie_read_message]. Qed.
 
 Example protocol_header_nonvacuous :
   g_header_encode true (g_header_new TDeltaData 258) = Some [67; 79; 80; 65; 2; 1; 0; 0; 3; 1; 0; 0] /\
